@@ -36,10 +36,10 @@ theorem sphere_source_documented :
       "v3[center[0],center[1],center[2]]=1", "v3=postprocess(v3,gaussian,np.asarray([0,0,0]),output_name)", "returnv3"] :=
   rfl
 
-/-- cylinder, complete body: `height // 2`, planar disc cut with `>`, slab clipped to the box -/
+/-- cylinder, complete body: `int(height // 2)`, planar disc cut with `>`, slab clipped to the box -/
 theorem cylinder_source_documented :
     Gen.C13.body_cylindrical_mask = ["mask_size=get_correct_format(mask_size)", "center=get_correct_format(center,reference_size=mask_size)", "if:radiusisNone",
-      "radius=np.amin(mask_size[:2])//2", "end", "if:heightisNone", "height=mask_size[2]", "end", "height=height//2",
+      "radius=np.amin(mask_size[:2])//2", "end", "if:heightisNone", "height=mask_size[2]", "end", "height=int(height//2)",
       "radius=preprocess_params(radius,gaussian,gaussian_outwards)", "height=preprocess_params(height,gaussian,gaussian_outwards)",
       "v0,v1=np.mgrid[0:mask_size[0]:1,0:mask_size[1]:1]", "v2=np.sqrt((v0-center[0])**2+(v1-center[1])**2)", "v2[v2>radius]=0",
       "v2[v2>0]=1", "v2[center[0],center[1]]=1", "v3=np.zeros(mask_size)", "v4=max(center[2]-height,0)",
@@ -272,6 +272,19 @@ theorem cylinder_half_height_outwards (q : Req) (h : Int) (hh : q.height = some 
     q.cylHalf = (((h / 2 : Int) : Rat) + q.gauss * 5).ceil := by
   unfold Req.cylHalf
   rw [hh, ho, Option.getD_some, preprocess_outwards _ _ hg, blur_factor_documented, trunc_intCast]
+
+/-- a height given as a non-integer (`6.0`, `7.5`; `cylindrical_mask` takes `int(height // 2)`, fix D-float-height): the statement's
+`⌊h/2⌋` only depends on `⌊h⌋`, and `h = n + 1/2` gives the half height of the integer `n` — the float heights the generator
+passes are judged with the integer-height model -/
+theorem half_height_of_fractional (h : ℚ) : ⌊h / 2⌋ = ⌊h⌋ / 2 ∧ ∀ n : ℤ, ⌊((n : ℚ) + 1 / 2) / 2⌋ = n / 2 := by
+  have key : ∀ x : ℚ, ⌊x / 2⌋ = ⌊x⌋ / 2 := fun x => by
+    have := Int.floor_div_natCast x 2
+    simpa using this
+  refine ⟨key h, fun n => ?_⟩
+  rw [key]
+  congr 1
+  rw [Int.floor_eq_iff]
+  constructor <;> norm_num
 
 theorem cylinder_radius_hard (q : Req) (r : Rat) (hr : q.radius = some r) (hg : q.gauss = 0 ∨ q.outwards = false) :
     q.cylRadius = r := by
@@ -1067,6 +1080,50 @@ theorem soft_cylinder_core_gaussian (q : Req) (hk : q.kind = .cylinder)
   soft_cylinder_core_within_tol q hk hc r hr h hh hr0 hg ho (kernelRadius q.gauss) (realW (q.gauss : ℝ) (kernelRadius q.gauss))
     (realW_nonneg _ _) (realW_cube_sum _ _) (1 / 1000) (gauss_tail_le q.gauss hg hg3)
 
+/-- the same for a radius left at its DEFAULT (`radius=None`: half the smallest box dimension) or given: the core is the ball of radius
+`q.radius.getD (min(nx,ny,nz) // 2)` -/
+theorem soft_sphere_core_gaussian_default (q : Req) (hk : q.kind = .sphere) (hc : CentreInBox q)
+    (hr0 : 0 ≤ q.radius.getD (((min (min q.nx q.ny) q.nz : Nat) / 2 : Nat) : Rat))
+    (hg : 0 < q.gauss) (hg3 : q.gauss ≤ 3) (ho : q.outwards = true) :
+    ∃ f, voxel q = some f ∧ ∀ i j k : Nat, i < q.nx → j < q.ny → k < q.nz →
+      (dist2 q.centre i j k : Rat) ≤ (q.radius.getD (((min (min q.nx q.ny) q.nz : Nat) / 2 : Nat) : Rat)) ^ 2 →
+      1 - blurAt q.nx q.ny q.nz (kernelRadius q.gauss) (realW (q.gauss : ℝ) (kernelRadius q.gauss))
+            (fun a b c => ((f a b c : Int) : ℝ)) i j k ≤ 1 / 1000 := by
+  have h := soft_sphere_core_gaussian { q with radius := some (q.radius.getD (((min (min q.nx q.ny) q.nz : Nat) / 2 : Nat) : Rat)) }
+    hk hc _ rfl hr0 hg hg3 ho
+  have hv : ∀ p : Req, p.kind = .sphere →
+      voxel { p with radius := some (p.radius.getD (((min (min p.nx p.ny) p.nz : Nat) / 2 : Nat) : Rat)) } = voxel p := by
+    rintro ⟨kind, nx, ny, nz, center, radius, height, radii, thick, gauss, outwards⟩ hp
+    simp only at hp
+    subst hp
+    rfl
+  rw [hv q hk] at h
+  exact h
+
+/-- the same for radius and / or height left at their DEFAULTS (`radius=None`: half the smaller of the x, y sizes; `height=None`: the z size)
+or given -/
+theorem soft_cylinder_core_gaussian_default (q : Req) (hk : q.kind = .cylinder)
+    (hc : 0 ≤ q.centre.1 ∧ q.centre.1 < q.nx ∧ 0 ≤ q.centre.2.1 ∧ q.centre.2.1 < q.ny)
+    (hr0 : 0 ≤ q.radius.getD (((min q.nx q.ny : Nat) / 2 : Nat) : Rat))
+    (hg : 0 < q.gauss) (hg3 : q.gauss ≤ 3) (ho : q.outwards = true) :
+    ∃ f, voxel q = some f ∧ ∀ i j k : Nat, i < q.nx → j < q.ny → k < q.nz →
+      cylIn q.nz q.centre.1 q.centre.2.1 q.centre.2.2 (q.radius.getD (((min q.nx q.ny : Nat) / 2 : Nat) : Rat))
+        ((q.height.getD (q.nz : Int)) / 2) i j k = true →
+      1 - blurAt q.nx q.ny q.nz (kernelRadius q.gauss) (realW (q.gauss : ℝ) (kernelRadius q.gauss))
+            (fun a b c => ((f a b c : Int) : ℝ)) i j k ≤ 1 / 1000 := by
+  have h := soft_cylinder_core_gaussian
+    { q with radius := some (q.radius.getD (((min q.nx q.ny : Nat) / 2 : Nat) : Rat)), height := some (q.height.getD (q.nz : Int)) }
+    hk hc _ rfl _ rfl hr0 hg hg3 ho
+  have hv : ∀ p : Req, p.kind = .cylinder →
+      voxel { p with radius := some (p.radius.getD (((min p.nx p.ny : Nat) / 2 : Nat) : Rat)),
+                     height := some (p.height.getD (p.nz : Int)) } = voxel p := by
+    rintro ⟨kind, nx, ny, nz, center, radius, height, radii, thick, gauss, outwards⟩ hp
+    simp only at hp
+    subst hp
+    rfl
+  rw [hv q hk] at h
+  exact h
+
 /-- **ellipsoid, blurred outwards: the inclusion used for spheres and cylinders is REFUTED** (the geometric half of the open finding
 C13-K2; the quantitative half — a core voxel that loses more than `1e-3` — is `ellipsoid_outwards_core_deficit` below).  Radii
 `(20,1,1)`, `σ = 1`: the code draws radii `(25,6,6)`; voxel `(44,8,8)` of a `48×16×16` box (centre `(24,8,8)`) belongs to the requested
@@ -1158,6 +1215,9 @@ example : (voxel { kind := .sphere, nx := 6, ny := 7, nz := 8, center := some (-
 -- a kernel meeting the hypotheses of `blur_range` / `soft_sphere_core_within_tol` (radius 1, weights 1/4, 1/2, 1/4; no offset beyond 5σ)
 example : ((cube 1).map (w3 fun t => if t = 0 then (1 / 2 : ℚ) else 1 / 4)).sum = 1 ∧
     (((cube 1).filter (farOffset 1)).map (w3 fun t => if t = 0 then (1 / 2 : ℚ) else 1 / 4)).sum ≤ coreTol := by decide +kernel
+-- the default radius of a 10 x 12 x 14 box is 5 (sphere) / 5 (cylinder), the default height 14: hypotheses of the `_default` theorems
+example : (0 : Rat) ≤ (none : Option Rat).getD (((min (min 10 12) 14 : Nat) / 2 : Nat) : Rat) ∧
+    (none : Option Int).getD ((14 : Nat) : Int) / 2 = 7 := by decide +kernel
 -- one mask and three masks: union minus intersection is not XOR (C13-K1)
 example : diffVox [(b2r true : ℚ)] = 0 ∧ xorAll [true] = true := by
   constructor
